@@ -384,7 +384,13 @@ type scen struct {
 	FailKinds []string   `json:"fail_kinds"`
 	Sets      [][]string `json:"key_sets,omitempty"`      // ambiguity family: the provider's successive key sets (names in keyDefs), overrides Rot; every "rotate+ok" answer advances by one
 	Doc       string     `json:"jwks_document,omitempty"` // "<entry kind>@<first|middle|last>", "plain", "empty", "onlyunk"; "" = the default document (see jwksBody). Applies to every 200 answer of the explored history; the warm-up download always gets the default document
+	Fam       string     `json:"family,omitempty"`        // "shape": construction options x kid-shape product (shapeScenarios); "opt": an existing sequential scenario repeated under the non-default construction options
 }
+
+// keySetOptions is the construction-option alphabet of rp.NewRemoteKeySet: every subset of the options the package
+// exports for it (there is exactly one, rp.SkipRemoteCheck; remoteKeySet.defaultAlg has no setter). Skip=false is the
+// empty subset, Skip=true the full one.
+var keySetOptions = []bool{false, true}
 
 // seq is the sequence of key sets the provider goes through (element 0 = the initial set,
 // which also fills a warm cache).
@@ -1230,6 +1236,38 @@ func (e *execution) judge1(reading string) engine.Result {
 			n.(*atomic.Int64).Add(1)
 		}
 	}
+	if sc.Fam == "shape" && sc.Warm {
+		// non-vacuity of the option x kid-shape product: which candidate the warm cache offered the token (none / the
+		// exact kid / a loose one: kid on one side only / kid-less on both sides), under which option, and what came of it
+		for i, c := range e.callers {
+			if !c.Returned || c.BaseAtStart != strings.Join(warm, "+") {
+				continue
+			}
+			tk := tokKinds[sc.Tokens[i]]
+			cand := "none"
+			for _, k := range usable(tk, warm) {
+				d := keyDefs[k]
+				switch {
+				case d.KID == tk.KID && d.KID != "":
+					cand = "exact-kid"
+				case d.KID == "" && tk.KID == "":
+					cand = "both-kidless"
+				case d.KID == "" || tk.KID == "":
+					cand = "loose"
+				}
+			}
+			if keyDefs[warm[0]].Mat == keyDefs[tk.Signer].Mat {
+				cand += "(signer)"
+			}
+			opt := "default"
+			if sc.Skip {
+				opt = "skip"
+			}
+			res := fmt.Sprintf("%s/%s/%s,dl=%d", opt, cand, c.Result, len(e.flights))
+			n, _ := shapeStat.LoadOrStore(res, new(atomic.Int64))
+			n.(*atomic.Int64).Add(1)
+		}
+	}
 	if reading != "" {
 		out += "|doc=" + reading // a document the statement does not classify, and the reading under which the execution is fine
 	} else if sc.Doc != "" {
@@ -1354,10 +1392,20 @@ func scenarios(c *engine.Check) []scen {
 			}
 		}
 	}
-	// SkipRemoteCheck only changes the kid-less path
+	// SkipRemoteCheck: on the unchanged library it only changes the kid-less path, so the CONCURRENT scenarios under the
+	// option are those with kid-less tokens ...
 	for _, toks := range append(multisets([]string{"nokid", "nokid2"}, 1), multisets([]string{"k1", "nokid", "nokid2"}, 2)...) {
 		add(toks, true, fk[:1])
 	}
+	// ... while the sequential ones take the construction options as a full dimension (every token kind; the kid-shape product)
+	optScenarios(kinds, func(toks []string, skip bool, fk []string) {
+		n0 := len(out)
+		add(toks, skip, fk)
+		for i := n0; i < len(out); i++ {
+			out[i].Fam = "opt"
+		}
+	}, fk[:1])
+	out = append(out, shapeScenarios()...)
 	return out
 }
 
@@ -1457,9 +1505,8 @@ func ambScenarios(c *engine.Check) []scen {
 			for _, k := range ambTokens {
 				for _, pre := range []bool{false, true} {
 					out = append(out, scen{Tokens: []string{k}, Warm: true, RotPre: pre, Sets: [][]string{s0, s1}})
-					if tokKinds[k].KID == "" {
-						out = append(out, scen{Tokens: []string{k}, Warm: true, RotPre: pre, Skip: true, Sets: [][]string{s0, s1}})
-					}
+					// every construction option (wave 6: for every token kind, not only the kid-less ones the option is about)
+					out = append(out, scen{Tokens: []string{k}, Warm: true, RotPre: pre, Skip: true, Sets: [][]string{s0, s1}})
 				}
 			}
 		}
@@ -1501,7 +1548,73 @@ func ambScenarios(c *engine.Check) []scen {
 	return out
 }
 
-var ambStat sync.Map // class -> *atomic.Int64
+// shapeScenarios: construction options x kid-shape of a rotation, as a full product of sequential histories.
+//
+//	options of rp.NewRemoteKeySet   {none, SkipRemoteCheck}                     (keySetOptions: every exported option)
+//	cached key                      {published with a kid (k1), without (n1)}
+//	rotated-in key                  {new kid (k2), no kid (n2), the kid of the cached key (k1b; next to n1 that is n2 again)}
+//	rotation                        {replaces the cached key, is added next to it (before / after it in the document)}
+//	token                           {kid of the new key, no kid — signed by the new material; kid of the old key, no kid —
+//	                                 signed by the old material; unknown kid; names k1 but signed by the attacker}
+//	cache                           cold | warm and the provider rotated before the call | warm and it rotates at the
+//	                                caller's own download (or not at all)
+//
+// One caller each (all its schedules); plus two-call histories on one key set (two callers, no faults: at preemption
+// bound 0 these are the sequential histories "a, then b", at bound 1 their overlaps) for {new-key token twice, kid-less
+// new-key token twice, old-key token then new-key token}: a rejection that met a stale cache must not outlive the
+// download some call triggers. The oracle is the one of the ambiguity family (mustAccept / mayAccept on the served
+// set); the only thing an option changes in it is what SkipRemoteCheck documents — a token WITHOUT kid that fails
+// against the cached keys is rejected without a download (judge1: the no-refresh report is withheld for exactly
+// Skip && token kid == ""). A token that carries a kid is owed its refresh under every option.
+func shapeScenarios() []scen {
+	var out []scen
+	toks := []string{"k2", "k1b", "nokid2", "k1", "nokid", "unk", "forged"}
+	for _, old := range []string{"k1", "n1"} {
+		for _, nw := range []string{"k2", "n2", "k1b"} {
+			newTok := map[string]string{"k2": "k2", "n2": "nokid2", "k1b": "k1b"}[nw]
+			oldTok := map[string]string{"k1": "k1", "n1": "nokid"}[old]
+			for _, next := range [][]string{{nw}, {old, nw}, {nw, old}} {
+				sets := [][]string{{old}, next}
+				for _, skip := range keySetOptions {
+					for _, k := range toks {
+						out = append(out, scen{Fam: "shape", Tokens: []string{k}, Skip: skip, Sets: sets})
+						for _, pre := range []bool{false, true} {
+							out = append(out, scen{Fam: "shape", Tokens: []string{k}, Skip: skip, Warm: true, RotPre: pre, Sets: sets})
+						}
+					}
+					if len(next) == 2 && next[0] == nw {
+						continue // two-call histories: document order of the overlap set only for single calls
+					}
+					pairs := [][]string{{newTok, newTok}, {oldTok, newTok}}
+					if newTok != "nokid2" {
+						pairs = append(pairs, []string{"nokid2", "nokid2"})
+					}
+					for _, pair := range pairs {
+						for _, pre := range []bool{false, true} {
+							out = append(out, scen{Fam: "shape", Tokens: pair, Skip: skip, Warm: true, RotPre: pre, Sets: sets})
+						}
+					}
+				}
+			}
+		}
+	}
+	return out
+}
+
+// optScenarios: the existing sequential (one caller) scenarios of the rotation grid repeated under every non-default
+// construction option, for EVERY token kind (until wave 6 SkipRemoteCheck was only combined with kid-less tokens, on
+// the argument that it changes nothing else — which is the library's current behaviour, not the statement's).
+func optScenarios(kinds []string, add func(toks []string, skip bool, fk []string), fk []string) {
+	for _, k := range kinds {
+		if tokKinds[k].KID == "" {
+			continue // already there (scenarios: "SkipRemoteCheck only changes the kid-less path")
+		}
+		add([]string{k}, true, fk)
+	}
+}
+
+var ambStat sync.Map   // class -> *atomic.Int64
+var shapeStat sync.Map // class -> *atomic.Int64
 
 func TestCheck(t *testing.T) {
 	c := engine.Start(t, "C13")
@@ -1566,6 +1679,34 @@ func TestCheck(t *testing.T) {
 	ambStat.Range(func(k, v any) bool { ambCls[k.(string)] = v.(*atomic.Int64).Load(); return true })
 	c.Extra("ambiguity_family", map[string]any{"key_sets": ambSets(), "tokens": ambTokens, "scenarios": ambScens, "executions_incl_reruns": ambRuns,
 		"token_vs_set_served_at_return:result (callers, incl. reruns)": ambCls})
+	famScens, famRuns := map[string]int{}, map[string]int64{}
+	skipKid := int64(0)
+	for i := range scs {
+		if scs[i].Fam != "" {
+			famScens[scs[i].Fam]++
+			famRuns[scs[i].Fam] += perScen[i].Load()
+		}
+		if scs[i].Skip {
+			for _, k := range scs[i].Tokens {
+				if tokKinds[k].KID != "" {
+					skipKid += perScen[i].Load()
+					break
+				}
+			}
+		}
+	}
+	shapeCls := map[string]int64{}
+	shapeStat.Range(func(k, v any) bool { shapeCls[k.(string)] = v.(*atomic.Int64).Load(); return true })
+	c.Extra("construction_options_x_kid_shape", map[string]any{
+		"options_of_NewRemoteKeySet": []string{"(none)", "SkipRemoteCheck"},
+		"cached_key":                 []string{"k1 (kid)", "n1 (no kid)"},
+		"rotated_in_key":             []string{"k2 (new kid)", "n2 (no kid)", "k1b (kid of the cached key)"},
+		"rotation":                   []string{"replace", "add after", "add before"},
+		"tokens":                     []string{"k2", "k1b", "nokid2", "k1", "nokid", "unk", "forged"},
+		"scenarios":                  famScens, "executions_incl_reruns": famRuns,
+		"executions_under_SkipRemoteCheck_with_a_kid_carrying_token_incl_reruns":                                   skipKid,
+		"shape_family: option/cached-candidate-for-the-token/result (callers that met a warm cache, incl. reruns)": shapeCls,
+	})
 	c.Extra("jwks_document_scenarios", map[string]any{"scenarios": docScens, "of": len(scs), "executions_incl_reruns": docRuns, "of_executions": allRuns})
 	if f := os.Getenv("C13_SCEN_STATS"); f != "" {
 		var b strings.Builder
